@@ -143,7 +143,7 @@ def observe(asan, d, files, main="main.nano", every=None):
 # violation keys
 # ------------------------------------------------------------------------------------------------
 
-CALLS = ("CALL", "CALL_INDIRECT", "CLOSURE_CALL", "CALL_MODULE", "CALL_EXTERN")
+CALLS = ("CALL", "CALL_INDIRECT", "CLOSURE_CALL", "CALL_MODULE")
 
 
 class Keyer:
@@ -152,13 +152,16 @@ class Keyer:
 
     def __init__(self, asan, isa, tags):
         self.asan, self.isa, self.tags = asan, isa, tags
+        self._seeds = {}
 
     def prev_op(self, o, ip, fn):
         try:
             nvm = os.path.join(o.dir, "key.nvm")
             if not os.path.exists(nvm):
                 sh([self.asan.nano_virt, o.main, "--emit-nvm", "-o", nvm], cwd=o.dir, cpu=60, san=True)
-            s = nvmfuzz.Seed(open(nvm, "rb").read(), self.isa)
+            s = self._seeds.get(nvm)
+            if s is None:
+                s = self._seeds[nvm] = nvmfuzz.Seed(open(nvm, "rb").read(), self.isa)
             cands = [fn] + [i for i in range(len(s.fns)) if i != fn]
             for i in cands:
                 if i >= len(s.fns):
@@ -178,11 +181,47 @@ class Keyer:
             pass
         return "?"
 
+    def orphan_keys(self, o):
+        """`orphan` records (a live object that no root reaches: a count nothing owns).  Unlike the other kinds they are
+        not consequences of each other, so every distinct (type, opcode) is reported.  The opcode needs an
+        every-instruction audit: a run audited more coarsely is repeated once at every instruction."""
+        recs = [f for k, f in o.records if k == "orphan"]
+        if not recs:
+            return []
+        note = ""
+        if o.every != 1:
+            log = os.path.join(o.dir, "audit1.log")
+            try:
+                os.unlink(log)
+            except OSError:
+                pass
+            r = vm(self.asan, o.dir, o.main, {"NLVERIF_AUDIT": "1", "NLVERIF_AUDIT_LOG": log}, cpu=600)
+            recs1 = [f for k, f in parse_log(log) if k == "orphan"]
+            if recs1 and not r.timeout:
+                recs, note = recs1, " [located by repeating the run with an audit at every instruction]"
+            else:
+                note = " [audit every %d instructions and the every-instruction repeat did not reproduce it: opcode unknown]" % o.every
+        out, seen = [], set()
+        for f in recs[:400]:
+            where = f.get("where", "?")
+            after = "destroy" if where == "destroy" else "?"
+            if where != "destroy" and "ip" in f and (o.every == 1 or "located" in note):
+                after = self.prev_op(o, int(f["ip"]), int(f.get("fn", 0)))
+            t = self.tags.get(int(f.get("type", -1)), f.get("type", "?"))
+            key = "audit|orphan|type=%s|after=%s" % (t, after)
+            if key in seen:
+                continue
+            seen.add(key)
+            out.append((key, "a live %s object (ref_count %s) is not reachable from the operand stack, locals, globals, frame closures or any "
+                             "live container at the instruction boundary at ip=%s fn=%s (%s): its count is owned by nothing and it can never "
+                             "be released; %d such record(s) in this run%s" % (t, f.get("rc"), f.get("ip"), f.get("fn"), where, len(recs), note)))
+        return out
+
     def keys(self, o):
         """[(key, text)] for the violation records of one observed run: the FIRST record of every kind (later ones are
         consequences that depend on the program), plus the registry's double-release counter."""
-        out = []
-        seen = set()
+        out = self.orphan_keys(o)
+        seen = set(["orphan"])
         for kind, f in o.records:
             if kind == "summary" or kind in seen:
                 continue
@@ -305,6 +344,59 @@ fn bump(m: HashMap<string, int>, k: string) -> int {
     if (map_has m k) { (map_set m k (+ (map_get m k) 1)) } else { (map_set m k 1) }
     return (map_get m k)
 }
+union Parsed { POk { pval: string }, PBad { pwhy: string } }
+fn parse(i: int) -> Parsed {
+    if (== (% i 3) 0) { return Parsed.PBad { pwhy: (+ "bad-" (int_to_string i)) } } else { return Parsed.POk { pval: (+ "v" (int_to_string i)) } }
+}
+fn join3(a: string, b: string, c: string) -> string { return (+ a (+ b c)) }
+fn cat3(a: array<string>, p: P, s: string) -> string { return (+ (at a 0) (+ p.name s)) }
+fn er_concat(i: int) -> string {
+    let r: Parsed = (parse i)
+    let text: string = (+ (+ (+ "item " (int_to_string i)) ": ") (match r {
+        POk(v) => v.pval
+        PBad(_e) => { return "skipped" }
+    }))
+    return text
+}
+fn er_args(i: int) -> string {
+    return (join3 (+ "a" (int_to_string i)) (+ "b" (int_to_string i)) (match (parse i) {
+        POk(v) => v.pval
+        PBad(_e) => { return "skipped" }
+    }))
+}
+fn er_arrlit(i: int) -> string {
+    let r: Parsed = (parse i)
+    let a: array<string> = [(+ "a" (int_to_string i)), (+ "b" (int_to_string i)), (match r {
+        POk(v) => v.pval
+        PBad(_e) => { return "skipped" }
+    })]
+    return (at a 2)
+}
+fn er_aggr(i: int) -> string {
+    let r: Parsed = (parse i)
+    return (cat3 [(+ "a" (int_to_string i)), "z"] P { name: (+ "n" (int_to_string i)), xs: [i, i] } (match r {
+        POk(v) => v.pval
+        PBad(_e) => { return (+ "skipped-" (int_to_string i)) }
+    }))
+}
+fn er_nested(i: int) -> string {
+    let r: Parsed = (parse i)
+    let q: Parsed = (parse (+ i 1))
+    return (+ (+ "x" (int_to_string i)) (match r {
+        POk(v) => (+ (+ v.pval "/") (match q {
+            POk(w) => w.pval
+            PBad(_f) => { return "inner" }
+        }))
+        PBad(_e) => { return "outer" }
+    }))
+}
+fn er_struct(i: int) -> P {
+    let r: Parsed = (parse i)
+    return P { name: (+ "n" (int_to_string i)), xs: [i, (match r {
+        POk(v) => (str_length v.pval)
+        PBad(_e) => { return (mkp i) }
+    })] }
+}
 fn ids(s: string) -> string { return s }
 fn idp(p: P) -> P { return p }
 fn ida(a: array<string>) -> array<string> { return a }
@@ -424,6 +516,15 @@ CHURN = {
     "temp_result_unwrap": ("", 'let s: string = (result_unwrap (mkr (* 2 i)))\nlet e: string = (result_unwrap_err (mkr (+ 1 (* 2 i))))\nset acc (+ acc (+ (str_length s) (str_length e)))', ""),
     "temp_string_map_get": ("", 'let s: string = (map_get (mkms i) (int_to_string i))\nset acc (+ acc (str_length s))', ""),
     "keys_of_temporary_map": ("", 'let ks: array<string> = (map_keys (mkm i))\nset acc (+ acc (+ (array_length ks) (map_get (mkm i) (int_to_string i))))', ""),
+    # -- `return` executed INSIDE an expression (block arm of a match expression) while operands of the enclosing
+    #    expression are pending on the operand stack: OP_RET has to release them
+    "early_return_pending_string": ("", 'set acc (+ acc (str_length (er_concat i)))', ""),
+    "early_return_pending_call_args": ("", 'set acc (+ acc (str_length (er_args i)))', ""),
+    "early_return_pending_array_literal": ("", 'set acc (+ acc (str_length (er_arrlit i)))', ""),
+    "early_return_pending_array_struct": ("", 'set acc (+ acc (str_length (er_aggr i)))', ""),
+    "early_return_pending_nested": ("", 'set acc (+ acc (str_length (er_nested i)))', ""),
+    "early_return_pending_in_callee_of_pending": ("", 'let s: string = (+ (+ "outer-" (int_to_string i)) (er_concat i))\nset acc (+ acc (str_length s))', ""),
+    "early_return_pending_struct_result": ("", 'let p: P = (er_struct i)\nset acc (+ acc (str_length p.name))', ""),
     "hashmap_keys_values": ('let m: HashMap<string, int> = (map_new)\n(map_set m "a" 1)\n(map_set m "b" 2)', 'let ks: array<string> = (map_keys m)\nlet vs: array<int> = (map_values m)\nset acc (+ acc (+ (array_length ks) (array_length vs)))', ""),
 }
 
@@ -555,6 +656,31 @@ fn fresh_r(i: int) -> Result<string, string> {
 }
 fn fresh_ra(i: int) -> Result<array<string>, string> {
     return Result.Ok { value: (fresh_as i) }
+}
+union Parsed { POk { pval: string }, PBad { pwhy: string } }
+fn parse_i(i: int) -> Parsed {
+    if (== (% i 3) 0) { return Parsed.PBad { pwhy: (fresh_s i) } } else { return Parsed.POk { pval: (fresh_s i) } }
+}
+fn cat3(a: array<string>, p: P, s: string) -> string { return (+ (get_AS a 0 "-") (+ p.name s)) }
+fn early_s(i: int, a: array<string>, p: P) -> string {
+    let r: Parsed = (parse_i i)
+    return (+ (+ (fresh_s (+ i 7)) p.name) (match r {
+        POk(v) => v.pval
+        PBad(_e) => { return (get_AS a 0 "none") }
+    }))
+}
+fn early_args(i: int, a: array<string>, p: P) -> string {
+    return (cat3 (array_slice a 0 2) P { name: (fresh_s i), xs: p.xs, tags: a } (match (parse_i i) {
+        POk(v) => v.pval
+        PBad(_e) => { return p.name }
+    }))
+}
+fn early_as(i: int, a: array<string>, p: P) -> array<string> {
+    let r: Parsed = (parse_i i)
+    return [(fresh_s i), p.name, (match r {
+        POk(v) => v.pval
+        PBad(_e) => { return a }
+    })]
 }
 fn fresh_u(i: int) -> U {
     if (== (% i 3) 0) { return U.Str { us: (fresh_s i) } } else {
@@ -713,6 +839,8 @@ class AliasMachine:
                   lambda: "(%d, (fresh_s %s)).1" % (r.randint(0, 9), self.uniq()),
                   lambda: "((fresh_s %s), %s).0" % (self.uniq(), self.e("AI", 0)),
                   lambda: "(temp_u_s %s)" % self.uniq(),
+                  lambda: "(early_s %s %s %s)" % (self.uniq(), self.e("AS", 0), self.e("P", 0)),
+                  lambda: "(early_args %s %s %s)" % (self.uniq(), self.e("AS", 0), self.e("P", 0)),
                   lambda: "(result_unwrap (fresh_r (* 2 %s)))" % self.uniq(),
                   lambda: "(result_unwrap_err (fresh_r (+ 1 (* 2 %s))))" % self.uniq(),
                   lambda: "(map_get (fresh_ms %d) (fresh_s %d))" % ((self.n + 1) * 37, (self.uniq(), self.n * 37)[1]),
@@ -726,6 +854,7 @@ class AliasMachine:
             "AS": [lambda: "(fresh_p %s).tags" % self.uniq(), lambda: "(fresh_q %s).%s.tags" % (self.uniq(), r.choice(["p1", "p2"])),
                    lambda: "(array_slice (fresh_as %s) %d 3)" % (self.uniq(), r.randrange(2)),
                    lambda: "(map_keys (fresh_m %s))" % self.uniq(), lambda: "(map_values (fresh_ms %s))" % self.uniq(),
+                   lambda: "(early_as %s %s %s)" % (self.uniq(), self.e("AS", 0), self.e("P", 0)),
                    lambda: "(result_unwrap (fresh_ra %s))" % self.uniq()],
             "P": [lambda: "(fresh_q %s).%s" % (self.uniq(), r.choice(["p1", "p2"])),
                   lambda: "Q { p1: (fresh_p %s), p2: %s, label: %s }.p1" % (self.uniq(), self.e("P", 0), self.e("S", 0)),
@@ -1562,6 +1691,7 @@ class Tally:
     def __init__(self):
         self.audits = self.objs_seen = self.registered = self.unregistered = self.instrs = 0
         self.maxdeg = self.peak = 0
+        self.orphan_records = self.exit_all_reachable = 0
         self.ops = {}
         self.every = {1: 0, 64: 0}
         self.outcomes = {}
@@ -1630,6 +1760,9 @@ def judge(ctx, keyer, tally, family, label, files, o):
     tally.unregistered += int(s.get("unregistered", 0))
     tally.maxdeg = max(tally.maxdeg, int(s.get("maxdeg", 0)))
     tally.peak = max(tally.peak, int(s.get("peak_live", 0)))
+    tally.orphan_records += int(s.get("orphan_records", 0))
+    if int(s.get("orphans", 0)) == 0:
+        tally.exit_all_reachable += 1
     tally.instrs += sum(o.ops.values())
     tally.every[o.every] = tally.every.get(o.every, 0) + 1
     for op, c in o.ops.items():
@@ -1663,6 +1796,7 @@ def run(ctx):
         if not ctx.violations:
             ctx.require(o.summary is not None and int(o.summary.get("audits", 0)) > 50,
                         "heap-audit hook not active (no summary record): %s" % _stderr_brief(o.aud))
+            ctx.require("orphans" in o.summary, "the heap-audit hook of this tree has no orphan detection (hook H2c missing)")
 
         # ---- audit family ----
         items = []
@@ -1752,6 +1886,8 @@ def run(ctx):
             "object_visits_in_audits": tally.objs_seen,
             "objects_registered": tally.registered,
             "objects_unregistered": tally.unregistered,
+            "orphan_records": tally.orphan_records,
+            "runs_with_every_live_object_reachable_at_exit": tally.exit_all_reachable,
             "max_in_degree": tally.maxdeg,
             "max_peak_live": tally.peak,
             "instructions_under_audit": tally.instrs,
@@ -1767,7 +1903,7 @@ def run(ctx):
             "samples": tally.samples,
         }, assumptions=[
             "hook H2 (registry in heap.c, verif_vm_audit in vm.c) computes the in-degree from: operand stack incl. locals, globals[0..global_count), frame closures; edges: array elements, struct/union/tuple fields, closure captures, hashmap keys and values; the intern table is weak",
-            "the invariant checked is ref_count >= in-degree (never equality); leaks are decided by the churn family only",
+            "the invariant checked is ref_count >= in-degree (never equality); lost counts are decided (a) in every run by the hook's orphan records: a registered object that no root reaches at an instruction boundary or at vm_destroy (temporaries are on the operand stack, which is a root), (b) by growth in the churn family",
             "audit every instruction for programs of <= %d instructions, every 64th above, every 16th in churn cells; the opcode in a key is the linear predecessor of the audited ip and is only given for every-instruction runs" % EVERY1_LIMIT,
             "churn measure: live objects at vm_destroy (after main's frame is gone, before globals are released) and the peak of live objects seen at audits; violation when either grows by more than 10%% of the extra iterations between K=%d and 4K" % K_ITER,
             "sanitizer reports whose stack does not touch src/nanovm are outside this property (front end) and only listed",
